@@ -13,6 +13,7 @@ import (
 	"fmt"
 	"io"
 	"sort"
+	"strings"
 	"testing"
 	"time"
 
@@ -164,7 +165,7 @@ func TestVerif_C01_sqlx_table(t *testing.T) {
 type c01SQLStep struct {
 	N int    `json:"n"` // connection index
 	E string `json:"e"` // exec queryrow queryrowpartial queryrows queryrowspartial prepare transact transactnoctx
-	O int    `json:"o"` // 0 ok 1 no rows 2 tx done 3 driver returns context.Canceled 4 caller's ctx cancelled 9 database down
+	O int    `json:"o"` // 0 ok 1 no rows 2 tx done 3 driver returns context.Canceled 4 caller's ctx cancelled 8 connection provider fails (refused connection) 9 database down
 	// B: how a transaction body produces outcome O (transact entries only):
 	// 0 through s.ExecCtx (the driver returns the error); 1 the body returns the
 	// error itself; 2 the body commits the tx itself and returns nil, 3 rolls it
@@ -174,8 +175,9 @@ type c01SQLStep struct {
 }
 
 type c01SQLCase struct {
-	K     int          `json:"k"`    // connections (all on one fake database)
-	Kind  []int        `json:"kind"` // per connection: 0 benign, 1 failing, 2 mixed
+	K     int          `json:"k"`             // connections (all on one fake database)
+	Kind  []int        `json:"kind"`          // per connection: 0 benign, 1 one non-benign outcome only, 2 mixed
+	Opt   []int        `json:"opt,omitempty"` // per connection: 0 no option, 1 an accept option that declares "database down" acceptable
 	Steps []c01SQLStep `json:"steps"`
 	Skew  int64        `json:"skew,omitempty"`
 }
@@ -183,7 +185,8 @@ type c01SQLCase struct {
 func c01GenSQL(rt *rapid.T) c01SQLCase {
 	c := c01SQLCase{K: rapid.IntRange(1, 3).Draw(rt, "k")}
 	c.Skew = rapid.Int64Range(0, 1_000_000_000).Draw(rt, "skew")
-	all := []string{"exec", "queryrow", "queryrowpartial", "queryrows", "queryrowspartial", "prepare", "transact", "transact", "transactnoctx"}
+	all := []string{"exec", "queryrow", "queryrowpartial", "queryrows", "queryrowspartial", "prepare", "transact", "transact", "transactnoctx",
+		"execplain", "queryrowplain", "queryrowpartialplain", "queryrowsplain", "queryrowspartialplain", "prepareplain"}
 	// mk draws the body mode for transaction entries
 	fixB := -1 // per connection: one fixed body mode (where valid), so that a miscounting mode is not diluted
 	mk := func(n int, e string, o int) c01SQLStep {
@@ -211,6 +214,7 @@ func c01GenSQL(rt *rapid.T) c01SQLCase {
 	for n := 0; n < c.K; n++ {
 		kind := rapid.SampledFrom([]int{0, 0, 1, 1, 2}).Draw(rt, "kind")
 		c.Kind = append(c.Kind, kind)
+		c.Opt = append(c.Opt, rapid.SampledFrom([]int{0, 0, 1}).Draw(rt, "opt"))
 		fixB = rapid.IntRange(-1, 4).Draw(rt, "fixb")
 		entries := all
 		if rapid.Bool().Draw(rt, "oneentry") { // a miscounting entry point must not be diluted by the others
@@ -229,7 +233,7 @@ func c01GenSQL(rt *rapid.T) c01SQLCase {
 				if rapid.Bool().Draw(rt, "tx") {
 					entries = []string{rapid.SampledFrom([]string{"transact", "transactnoctx"}).Draw(rt, "txentry")}
 				} else {
-					entries = []string{rapid.SampledFrom(all[:6]).Draw(rt, "entry")}
+					entries = []string{rapid.SampledFrom(append(append([]string{}, all[:6]...), all[9:]...)).Draw(rt, "entry")}
 				}
 				o := rapid.IntRange(1, 4).Draw(rt, "fo")
 				pool = []int{o}
@@ -248,10 +252,15 @@ func c01GenSQL(rt *rapid.T) c01SQLCase {
 			for i := 0; i < ln; i++ {
 				scripts[n] = append(scripts[n], mk(n, rapid.SampledFrom(entries).Draw(rt, "e"), 9))
 			}
+			if rapid.IntRange(0, 3).Draw(rt, "refused") == 0 { // the other fault kind: no connection at all
+				for i := range scripts[n] {
+					scripts[n][i].O, scripts[n][i].B = 8, 0
+				}
+			}
 		default:
 			ln := rapid.IntRange(20, 200).Draw(rt, "n")
 			for i := 0; i < ln; i++ {
-				scripts[n] = append(scripts[n], mk(n, rapid.SampledFrom(entries).Draw(rt, "e"), rapid.SampledFrom([]int{0, 1, 2, 3, 4, 9, 9, 9}).Draw(rt, "o")))
+				scripts[n] = append(scripts[n], mk(n, rapid.SampledFrom(entries).Draw(rt, "e"), rapid.SampledFrom([]int{0, 1, 2, 3, 4, 8, 9, 9, 9}).Draw(rt, "o")))
 			}
 		}
 	}
@@ -277,8 +286,30 @@ func c01GenSQL(rt *rapid.T) c01SQLCase {
 	return c
 }
 
+var c01Refused = errors.New("c01: connection refused")
+
 func c01InterpSQL(t *testing.T, c c01SQLCase) (v kit.Verdict) {
 	var fail string
+	opt := func(n int) int {
+		if n < len(c.Opt) {
+			return c.Opt[n]
+		}
+		return 0
+	}
+	// what the statement requires of a connection follows from ITS script and ITS option:
+	// benignFor: nil, the sentinels and whatever the connection's accept option accepts
+	benignFor := func(n, o int) bool { return o <= 4 || (o == 9 && opt(n) == 1) }
+	total := make([]int, c.K)
+	nonBenign := make([]int, c.K)
+	for _, st := range c.Steps {
+		n := st.N % c.K
+		total[n]++
+		if !benignFor(n, st.O) {
+			nonBenign[n]++
+		}
+	}
+	mustNever := func(n int) bool { return c.Kind[n] != 2 && nonBenign[n] <= 5 }
+	mustCut := func(n int) bool { return c.Kind[n] == 1 && nonBenign[n] == total[n] && total[n] >= 200 }
 	rejected := make([]int, c.K)
 	nfail := make([]int, c.K)
 	calls := make([]int, c.K)
@@ -294,13 +325,21 @@ func c01InterpSQL(t *testing.T, c c01SQLCase) (v kit.Verdict) {
 			kit.Wait()
 		}()
 		provided := make([]int, c.K)
+		refuse := false
 		conns := make([]*commonConn, c.K)
 		for n := 0; n < c.K; n++ {
 			n := n
-			conns[n] = NewConnFromDB(db).(*commonConn)
+			var opts []Option
+			if opt(n) == 1 { // same shape as the package's own withMySQLAcceptable option
+				opts = append(opts, func(cc *commonConn) { cc.accept = func(err error) bool { return err == c01DBDown } })
+			}
+			conns[n] = NewConnFromDB(db, opts...).(*commonConn)
 			orig := conns[n].provider
 			conns[n].provider = func() (*sql.DB, error) {
 				provided[n]++
+				if refuse {
+					return nil, c01Refused
+				}
 				return orig()
 			}
 		}
@@ -315,7 +354,7 @@ func c01InterpSQL(t *testing.T, c c01SQLCase) (v kit.Verdict) {
 			switch o.O {
 			case 1:
 				want = sql.ErrNoRows
-				if o.E == "queryrow" || o.E == "queryrowpartial" {
+				if o.E == "queryrow" || o.E == "queryrowpartial" || o.E == "queryrowplain" || o.E == "queryrowpartialplain" {
 					cfg.rows = 0 // the natural way: empty result set
 				} else {
 					cfg.next = sql.ErrNoRows
@@ -326,8 +365,13 @@ func c01InterpSQL(t *testing.T, c c01SQLCase) (v kit.Verdict) {
 				want, cfg.next = context.Canceled, context.Canceled
 			case 4:
 				want, ctx = context.Canceled, cancelled
+			case 8:
+				want = c01Refused
 			case 9:
 				want, cfg.next = c01DBDown, c01DBDown
+			}
+			refuse = o.O == 8
+			if !benignFor(n, o.O) {
 				nfail[n]++
 			}
 			calls[n]++
@@ -342,6 +386,32 @@ func c01InterpSQL(t *testing.T, c c01SQLCase) (v kit.Verdict) {
 			case "queryrows":
 				var xs []int64
 				err = conn.QueryRowsCtx(ctx, &xs, "queryrows")
+			case "execplain", "queryrowplain", "queryrowpartialplain", "queryrowsplain", "queryrowspartialplain", "prepareplain":
+				if o.O == 4 { // the forms without ctx cannot carry a cancelled context: use the Ctx twin
+					var x int64
+					err = conn.QueryRowCtx(ctx, &x, "queryrow")
+					break
+				}
+				var x int64
+				var xs []int64
+				switch o.E {
+				case "execplain":
+					_, err = conn.Exec("exec")
+				case "queryrowplain":
+					err = conn.QueryRow(&x, "queryrow")
+				case "queryrowpartialplain":
+					err = conn.QueryRowPartial(&x, "queryrow")
+				case "queryrowsplain":
+					err = conn.QueryRows(&xs, "queryrows")
+				case "queryrowspartialplain":
+					err = conn.QueryRowsPartial(&xs, "queryrows")
+				case "prepareplain":
+					var st StmtSession
+					st, err = conn.Prepare("prepare")
+					if err == nil && st != nil {
+						_ = st.Close()
+					}
+				}
 			case "prepare":
 				var st StmtSession
 				st, err = conn.PrepareCtx(ctx, "prepare")
@@ -402,8 +472,8 @@ func c01InterpSQL(t *testing.T, c c01SQLCase) (v kit.Verdict) {
 					fail = fmt.Sprintf("%s: connection provider not consulted but the result is %v", what, err)
 					return
 				}
-				if c.Kind[n] == 0 {
-					fail = fmt.Sprintf("%s rejected by the breaker although this connection saw only benign outcomes and %d (<=5) failures; kinds of all connections: %v", what, nfail[n], c.Kind)
+				if mustNever(n) {
+					fail = fmt.Sprintf("%s rejected by the breaker although this connection (accept option %d) saw only outcomes that are benign for it and %d (<=5) failures; kinds %v options %v", what, opt(n), nfail[n], c.Kind, c.Opt)
 					return
 				}
 				continue
@@ -418,15 +488,15 @@ func c01InterpSQL(t *testing.T, c c01SQLCase) (v kit.Verdict) {
 			}
 		}
 		for n := 0; n < c.K; n++ {
-			switch c.Kind[n] {
-			case 0:
+			switch {
+			case mustNever(n):
 				for j := 0; j < 500; j++ {
 					if _, err := conns[n].brk.Allow(); err != nil {
-						fail = fmt.Sprintf("connection %d: after only benign outcomes and %d (<=5) failures its breaker rejects (probe %d); kinds of all connections: %v", n, nfail[n], j, c.Kind)
+						fail = fmt.Sprintf("connection %d (accept option %d): after only outcomes benign for it and %d (<=5) failures its breaker rejects (probe %d); kinds %v options %v", n, opt(n), nfail[n], j, c.Kind, c.Opt)
 						return
 					}
 				}
-			case 1:
+			case mustCut(n):
 				if rejected[n] == 0 {
 					fail = fmt.Sprintf("connection %d: %d consecutive database failures were all admitted: the breaker never cut off", n, calls[n])
 					return
@@ -435,10 +505,31 @@ func c01InterpSQL(t *testing.T, c c01SQLCase) (v kit.Verdict) {
 		}
 	})
 	hasB, hasF := false, false
-	for _, kd := range c.Kind {
-		classes[[]string{"benign-conn", "failing-conn", "mixed-conn"}[kd]] = true
-		hasB = hasB || kd == 0
-		hasF = hasF || kd == 1
+	for n, kd := range c.Kind {
+		switch {
+		case mustNever(n) && kd == 1:
+			classes["conn-whose-failures-its-accept-option-accepts"] = true
+			hasB = true
+		case mustNever(n):
+			classes["benign-conn"] = true
+			hasB = true
+		case mustCut(n):
+			classes["failing-conn"] = true
+			hasF = true
+		default:
+			classes["mixed-conn"] = true
+		}
+		if opt(n) == 1 {
+			classes["conn-with-accept-option"] = true
+		}
+	}
+	for _, st := range c.Steps {
+		if st.O == 8 {
+			classes["fault-provider-refused"] = true
+		}
+		if strings.HasSuffix(st.E, "plain") || st.E == "transactnoctx" {
+			classes["form-without-ctx"] = true
+		}
 	}
 	if c.K > 1 {
 		classes["several-connections"] = true
